@@ -136,7 +136,8 @@ type Task struct {
 	prio      int
 	failEpoch int64 // scheduler epoch at which this task was last released to probe a lock
 	condOn    *sync.Cond
-	wlockOn   any // the RWMutex this task waits to write-lock (writer preference)
+	wlockOn   any    // the RWMutex this task waits to write-lock (writer preference)
+	want      string // the lock this task last waited for (diagnostics of a deadlock)
 	condWoken bool
 	condSeq   int64
 
@@ -469,6 +470,7 @@ func BeforeLock(mu any, kind int) {
 				s.setWriteWait(t, mu)
 			}
 		}
+		s.noteWant(t, mu, kind)
 		s.park(t, stLockWait)
 	}
 }
@@ -476,6 +478,12 @@ func BeforeLock(mu any, kind int) {
 //go:norace
 //go:noinline
 func (s *Sim) setWriteWait(t *Task, mu any) { t.wlockOn = mu }
+
+//go:norace
+//go:noinline
+func (s *Sim) noteWant(t *Task, mu any, kind int) {
+	t.want = fmt.Sprintf("%T@%p/%s", mu, mu, map[int]string{LockW: "W", LockR: "R"}[kind])
+}
 
 // writerWaits: is a task other than t parked in Lock() of the RWMutex mu?
 //
@@ -690,7 +698,7 @@ func (s *Sim) collect() {
 			case stCondWait:
 				st = "condwait"
 			}
-			s.res.Blocked = append(s.res.Blocked, BlockedInfo{Task: t.Name, State: st, Site: SiteString(t.site)})
+			s.res.Blocked = append(s.res.Blocked, BlockedInfo{Task: t.Name, State: st, Site: SiteString(t.site) + blockedWant(t, st)})
 		}
 	}
 	if mc := mapCfg.Load(); mc != nil {
@@ -921,4 +929,12 @@ func (s *Sim) fallback(runnable []*Task) *Task {
 		}
 	}
 	return runnable[0]
+}
+
+//go:norace
+func blockedWant(t *Task, st string) string {
+	if st == "lockwait" && t.want != "" {
+		return " wants " + t.want
+	}
+	return ""
 }
